@@ -30,6 +30,9 @@ func shape(el *etree.Element, b *strings.Builder) {
 	var as []string
 	for _, a := range el.Attr {
 		n := a.Key
+		if a.Space == "xmlns" || (a.Space == "" && a.Key == "xmlns") {
+			continue // namespace declarations are compared through the resolved element names (exclusive c14n signing relocates them)
+		}
 		if a.Space != "" {
 			n = a.Space + ":" + a.Key
 		}
@@ -78,6 +81,9 @@ func (x *xnode) shape(b *strings.Builder, attrLF bool) {
 	}
 	var as []string
 	for k, v := range x.attrs {
+		if strings.HasPrefix(k, "xmlns") {
+			continue
+		}
 		if k == "ID" {
 			v = "<id>"
 		}
@@ -177,6 +183,7 @@ func runC15(c *mon.Ctx) {
 		args := OutArgs{NameID: o.draw(r, "user@example.org", false), SessionIndex: o.draw(r, "_sess1", false), Status: o.draw(r, saml2.StatusCodeSuccess, true), ReqID: o.draw(r, "_req1", true)}
 		signed := true
 		sp.SignAuthnRequests = true
+		sp.SignAuthnRequestsCanonicalizer = pick(r, CanonChoices()).Obj
 		var xml string
 		var err error
 		pv, stack := mon.Guard(func() {
